@@ -204,3 +204,59 @@ Theorem C11_case_pins :
   /\ CaseGen.valid_filename_subs = [("[^a-z0-9.$_-]+", "-")] /\ CaseGen.valid_module_consts = ["-"; "_"].
 Proof. exact case_pins. Qed.
 Print Assumptions C11_case_pins.
+
+(* ---- empty modules are not emitted: utils.empty and the drop rule of Generator._get_file (Model/Empty.v) ---- *)
+From GV Require Import Model.FixWs Model.Empty Proofs.Empty.
+
+(* T0 pins: the one expression of utils.empty, the drop test of _get_file and the function its content goes through *)
+Theorem C11_pins_empty :
+  empty_src = "not any([i.lstrip() and (not i.lstrip().startswith('#')) for i in content.split('\n')])"
+  /\ get_file_tests = ["utils.empty(cgr_file.content) and (not fn.endswith(('py.typed', '__init__.py')))"]
+  /\ get_file_content_fns = ["formatter.fix_whitespace"]
+  /\ get_file_consts = ["py.typed"; "__init__.py"].
+Proof. exact pins_empty. Qed.
+Print Assumptions C11_pins_empty.
+
+(* utils.empty (split on newlines, lstrip, startswith) is the complement of a one-pass scanner that reports the first
+   character that is neither a blank, a newline nor part of a comment: "no Python statement", for every text *)
+Theorem C11_empty_is_scanner : forall content, empty content = negb (has_code false content).
+Proof. exact empty_scan. Qed.
+Print Assumptions C11_empty_is_scanner.
+
+Theorem C11_empty_by_lines : forall a b, empty (a ++ String nl b) = empty a && empty b.
+Proof. exact empty_lines. Qed.
+Print Assumptions C11_empty_by_lines.
+
+(* the decision is taken on the whitespace-cleaned text; it is the decision the raw render would have got (uses C20's
+   theorem that fix_whitespace only deletes blanks) *)
+Theorem C11_empty_after_fix_whitespace : forall raw, empty (fix_whitespace raw) = empty raw.
+Proof. exact empty_fix_whitespace. Qed.
+Print Assumptions C11_empty_after_fix_whitespace.
+
+(* the file set: a rendered template reaches the response exactly when its text has a statement or it is a package marker *)
+Theorem C11_emitted_spec : forall fn raw,
+  emitted fn (fix_whitespace raw) = has_code false raw || ends_with "py.typed" fn || ends_with "__init__.py" fn.
+Proof. exact emitted_spec. Qed.
+Print Assumptions C11_emitted_spec.
+
+Theorem C11_markers_always_emitted : forall dir raw,
+  emitted (dir ++ "__init__.py") (fix_whitespace raw) = true /\ emitted (dir ++ "py.typed") (fix_whitespace raw) = true.
+Proof. exact markers_always_emitted. Qed.
+Print Assumptions C11_markers_always_emitted.
+
+Theorem C11_comment_only_dropped : forall fn raw,
+  has_code false raw = false -> ends_with "py.typed" fn = false -> ends_with "__init__.py" fn = false ->
+  emitted fn (fix_whitespace raw) = false.
+Proof. exact comment_only_dropped. Qed.
+Print Assumptions C11_comment_only_dropped.
+
+Example C11_empty_examples :
+  empty (sx [35;32;45;42;45;10; 10; 32;32;9;35;32;99;10]%N) = true
+  /\ empty "" = true
+  /\ empty (sx [35;32;99;10; 120;32;61;32;49;10]%N) = false
+  /\ empty (sx [34;34;34;10; 35;10; 34;34;34;10]%N) = false
+  /\ emitted "a/b/pagers.py" (fix_whitespace (sx [35;32;99;10;10;10]%N)) = false
+  /\ emitted "a/b/__init__.py" (fix_whitespace (sx [35;32;99;10;10;10]%N)) = true
+  /\ emitted "a/b/my__init__.py" "" = true.
+Proof. exact empty_examples. Qed.
+Print Assumptions C11_empty_examples.
